@@ -63,6 +63,24 @@ func (c *ProgCase) Judge(rs []Res, env *Env) Outcome {
 				}
 			}
 			if valid, decided := c.P.staticValid(); valid && decided && !onlyLayout {
+				// whatever was refused, the bytes that were written and the location counter must still agree: the program ends in
+				// `zend: DD zend`, so the last four bytes hold the address of their own position
+				if n := len(c.P.Stmts); n >= 2 && len(r.Out) >= 4 && c.P.Stmts[n-2].K == "label" && c.P.Stmts[n-1].K == "data" && c.P.Stmts[n-1].W == 4 && len(c.P.Stmts[n-1].Items) == 1 && c.P.Stmts[n-1].Items[0].Label == c.P.Stmts[n-2].Label {
+					org := int64(0)
+					for _, st := range c.P.Stmts {
+						if st.K == "org" {
+							org = st.N
+						}
+					}
+					got := le(r.Out[len(r.Out)-4:], 4)
+					want := int64(uint64(org+int64(len(r.Out)-4)) & 0xffffffff)
+					if got != want {
+						o.Status = Violated
+						o.Viols = []Violation{{Sig: fmt.Sprintf("C05|loc-advance-after-refusal|%s|drift=%+d", c.Ctx, want-got),
+							Detail: fmt.Sprintf("part of the program is refused (%s) and afterwards the location counter no longer matches the bytes written: the final `DD zend` holds %#x but stands at %#x; output %s; program:\n%s", why, got, want, hex.EncodeToString(clip(r.Out, 200)), c.P.Source())}}
+						return o
+					}
+				}
 				o.Status = Violated
 				o.Viols = []Violation{{Sig: fmt.Sprintf("C05|refused-valid|%s|%s", c.Ctx, diagClass(why)),
 					Detail: fmt.Sprintf("a program of data directives that is valid by the model is refused (%s); program:\n%s", why, c.P.Source())}}
